@@ -34,7 +34,8 @@ PROPS["C16"] = {
 RECV_STUBS = {"google.golang.org/protobuf/proto.Unmarshal": "github.com/tsuna/gohbase/region.vUnmarshal"}
 
 PROPS["C11"] = {
-    "files": ["hrpc/c11_cells.go", "region/fakes.go", "region/c11_receive.go", "region/c15_compressor.go", "region/c11_info.go"],
+    "files": ["hrpc/c11_cells.go", "region/fakes.go", "region/c11_receive.go", "region/c15_compressor.go", "region/c11_info.go",
+              "root/fakes.go", "root/c08_cache.go", "root/c06_scanner.go", "root/c11_scanresp.go"],
     "claim": "No byte string up to N bytes in the position of a cellblock, and no structurally valid Get/Mutate/Scan response whose "
              "counts disagree with the data, makes the cell decoders panic, read beyond the received bytes or return a cell that is "
              "not fully inside the buffer.",
@@ -59,6 +60,8 @@ PROPS["C11"] = {
          "params": {"quick": {"N": 26, "MAXCELLS": 1}, "thorough": {"N": 52, "MAXCELLS": 2}}},
         {"name": "decompress_arbitrary", "pkg": "region", "entry": "VerifDecompressArbitrary", "reach": ["accepted"],
          "params": {"quick": {"ENC": 2, "N": 14}, "thorough": {"ENC": 2, "N": 24}}},
+        {"name": "odd_scan_responses", "steps": 60000, "pkg": "root", "entry": "VerifOddScanResponses", "reach": ["ended"],
+         "params": {"quick": {"RESP": 1, "NROWS": 2}, "thorough": {"RESP": 2, "NROWS": 2}}},
         {"name": "parse_region_info", "pkg": "region", "entry": "VerifParseRegionInfo", "stubs": RECV_STUBS, "reach": ["parsed"],
          "params": {"quick": {}, "thorough": {}}},
         {"name": "receive_multi_dispatch", "pkg": "region", "entry": "VerifReceiveMulti", "stubs": RECV_STUBS, "reach": ["answered", "left-registered"],
